@@ -513,4 +513,3 @@ func c9Intn(r *rand.Rand, n int) int {
 	return r.Intn(n)
 }
 
-func c9Corpus() [][]string { return nil }
